@@ -74,12 +74,13 @@ def sh(cmd, cwd=None, env=None, input=None, timeout=None, binary=False):
 
 
 class Lock:
-    def __init__(self, name):
+    def __init__(self, name, shared=False):
         self.path = os.path.join(BUILD, name + '.lock')
+        self.shared = shared
 
     def __enter__(self):
-        self.f = open(self.path, 'w')
-        fcntl.flock(self.f, fcntl.LOCK_EX)
+        self.f = open(self.path, 'a')
+        fcntl.flock(self.f, fcntl.LOCK_SH if self.shared else fcntl.LOCK_EX)
         return self
 
     def __exit__(self, *a):
@@ -325,7 +326,8 @@ class Ctx:
             af = os.path.join(audit_dir, mod + '.lean')
             with open(af, 'w') as f:
                 f.write(AUDIT_TMPL % {'mod': mod})
-            rc, so, se = sh(['lake', 'env', 'lean', af], cwd=LEAN, timeout=1800)
+            with Lock('lake', shared=True):
+                rc, so, se = sh(['lake', 'env', 'lean', af], cwd=LEAN, timeout=1800)
             self.checker_cmds.append('cd lean && lake env lean <audit of %s: collectAxioms for every theorem>' % mod)
             found = {}
             for m in re.finditer(r'THEOREM (\S+) AXIOMS \[(.*?)\]', so + se, flags=re.S):
@@ -370,7 +372,8 @@ class Ctx:
     def leanchecker(self):
         res = True
         for mod in self.prop_modules:
-            rc, so, se = sh(['lake', 'env', 'leanchecker', mod], cwd=LEAN, timeout=3600)
+            with Lock('lake', shared=True):
+                rc, so, se = sh(['lake', 'env', 'leanchecker', mod], cwd=LEAN, timeout=3600)
             self.checker_cmds.append('cd lean && lake env leanchecker ' + mod)
             self.extra.setdefault('leanchecker', {})[mod] = 'ok' if rc == 0 else (so + se)[-500:]
             if rc != 0:
